@@ -315,12 +315,12 @@ Qed.
 
 (** the stored text is always one valid object, so SerializableSpan's debug-only panics / release-only
     `field_error` branches are unreachable *)
-Theorem span_obj_bytes_refines c name parent init recs :
+Theorem span_obj_bytes_refines c sm parent init recs :
   float_free init -> Forall float_free recs ->
-  span_obj_bytes name (stored_after c init recs) =
-  Some (span_obj {| sp_name := name; sp_parent := parent; sp_fields := fields_after c init recs |}).
+  span_obj_bytes (sm_name sm) (stored_after c init recs) =
+  Some (span_obj {| sp_meta := sm; sp_parent := parent; sp_fields := fields_after c init recs |}).
 Proof.
-  intros Hi Hr. rewrite stored_after_refines by assumption. unfold span_obj_bytes, span_obj. cbn [sp_fields sp_name].
+  intros Hi Hr. rewrite stored_after_refines by assumption. unfold span_obj_bytes, span_obj, sp_name. cbn [sp_fields sp_meta].
   assert (Hn : nf_map (fields_after c init recs)).
   { unfold fields_after. assert (N0 : nf_map (visit_span [] init)) by (apply visit_nf; [constructor|exact Hi]).
     revert N0. generalize (visit_span [] init). induction Hr as [|r recs' Hr Hrs IH]; intros m Hm; [exact Hm|].
@@ -328,6 +328,25 @@ Proof.
   rewrite parse_render by (apply nf_map_obj; exact Hn).
   rewrite bt_of_list_sorted by apply fields_after_sorted. reflexivity.
 Qed.
+
+(** * The build with the `tracing-log` feature: which writes reach the map *)
+Lemma eff_in c vals kv : In kv (eff c vals) <-> In kv vals /\ log_skipped c kv = false.
+Proof. unfold eff. rewrite filter_In. rewrite negb_true_iff. tauto. Qed.
+
+Lemma eff_nolog c vals : feat_log c = false -> eff c vals = vals.
+Proof.
+  intro H. unfold eff. induction vals as [|kv r IH]; [reflexivity|]. simpl.
+  unfold log_skipped at 1. rewrite H. simpl. rewrite IH. reflexivity.
+Qed.
+
+Lemma eff_Forall c (P : bytes * value -> Prop) vals : Forall P vals -> Forall P (eff c vals).
+Proof. intro H. rewrite Forall_forall in *. intros kv Hk. apply eff_in in Hk. apply H. tauto. Qed.
+
+(** a value that does not arrive through record_debug, or a name without the `log.` prefix, is never skipped *)
+Lemma log_skipped_typed c k v : via_debug v = false -> log_skipped c (k, v) = false.
+Proof. intro H. unfold log_skipped. simpl. rewrite H. rewrite andb_false_r. reflexivity. Qed.
+Lemma log_skipped_prefix c k v : has_prefix (bs "log.") k = false -> log_skipped c (k, v) = false.
+Proof. intro H. unfold log_skipped. simpl. rewrite H. rewrite andb_false_r. reflexivity. Qed.
 
 (** * Finding F141: with borrowed keys a key that needs an escape loses every later record *)
 Definition f141_init : fields := [([97; 34; 98], VU64 1)].                (* field name: a, double quote, b *)
@@ -338,7 +357,7 @@ Theorem F141_refuted : forall c, fx141 c = false ->
   lookup [120] (fields_after c f141_init f141_recs) = None /\
   ~ Forall plain_key (f141_init ++ concat f141_recs).
 Proof.
-  intros [a b] H. simpl in H. subst b. split; [reflexivity|]. split; [reflexivity|].
+  intros [a b l] H. simpl in H. subst b. split; [reflexivity|]. split; [reflexivity|].
   intro F. inversion F as [|? ? P _]; subst. vm_compute in P. discriminate.
 Qed.
 
